@@ -84,7 +84,7 @@ Proof.
   destruct (N.land b 1 =? 0).
   - destruct (obind (dec_int_internal 4 (b :: t)) _) as [[[x y] rest]| | | | |] eqn:E; try discriminate.
     intros [= <- <-]. apply obind_ok in E. destruct E as [[[v bits] rest0] [H1 H2]].
-    rewrite (s_intern_ok _ _ _ _ _ H1). injection H2 as H2 <-. rewrite H2. reflexivity.
+    rewrite (s_intern_ok _ _ _ _ _ H1). injection H2 as H2 <-. rewrite <- H2. reflexivity.
   - destruct (obind (dec_int_internal 2 (b :: t)) _) as [[[x y] rest]| | | | |] eqn:E; try discriminate.
     intros [= <- <-]. apply obind_ok in E. destruct E as [[[vx bx] rest0] [H1 H2]].
     apply obind_ok in H2. destruct H2 as [[[vy by_] rest1] [H2 H3]].
@@ -145,12 +145,12 @@ Qed.
 Lemma s_real_by_ok ty bs v r : rd_real_by ty bs = Some (v, r) -> s_real_by ty (mkS bs None) = (v, mkS r None).
 Proof.
   unfold rd_real_by, s_real_by.
-  destruct ty as [|p]; [|do 3 (destruct p as [p|p|]; try discriminate)].
+  destruct ty as [|p]; [|repeat (destruct p as [p|p|]; try discriminate)].
   all: try (destruct (rd_uint bs) as [[n r1]|] eqn:E; cbn [obnd]; [|discriminate];
             try (destruct (rd_uint r1) as [[n2 r2]|] eqn:E2; cbn [obnd]; [|discriminate];
                  intros [= <- <-]; rewrite (s_uint_ok _ _ _ E), (s_uint_ok _ _ _ E2); reflexivity);
             intros [= <- <-]; rewrite (s_uint_ok _ _ _ E); reflexivity).
-  all: (match goal with |- context [take_n ?k bs] => destruct (take_n k bs) as [[l r1]|] eqn:E end;
+  all: (match goal with |- context [take_n ?k ?b] => destruct (take_n k b) as [[l r1]|] eqn:E end;
         cbn [obnd]; [|discriminate]; intros [= <- <-]; rewrite (take_n_rdn _ _ _ _ E); reflexivity).
 Qed.
 
@@ -208,4 +208,303 @@ Lemma rd_count_length {B} (rd : list N -> option (B * list N)) n bs l r :
 Proof.
   unfold rd_count. destruct (N.of_nat (length bs) <? n); [discriminate|]. intros H.
   apply rd_n_length in H. lia.
+Qed.
+
+(* ================================================================== point lists *)
+Lemma padd_comm a b : padd a b = padd b a.
+Proof. unfold padd. f_equal; lia. Qed.
+
+Definition alt_step (st : list pt * bool * pt) (d : Z) : list pt * bool * pt :=
+  let '(acc, horizontal, ref) := st in
+  let cur := if horizontal then ((fst ref + d)%Z, snd ref) else (fst ref, (snd ref + d)%Z) in
+  (cur :: acc, negb horizontal, cur).
+Lemma alt_body_ok a bs d r : rd_int bs = Some (d, r) -> plist_alt_body a (mkS bs None) = (alt_step a d, mkS r None).
+Proof. intros H. unfold plist_alt_body, alt_step. destruct a as [[acc h] ref]. rewrite (s_int_ok _ _ _ H). reflexivity. Qed.
+Lemma alt_fold : forall ds acc h p l last h',
+  manh_accum h p ds = (l, last, h') -> fold_left alt_step ds (acc, h, p) = (rev l ++ acc, h', last).
+Proof.
+  induction ds as [|d t IH]; intros acc h p l last h' H; cbn [manh_accum] in H.
+  - injection H as <- <- <-. reflexivity.
+  - cbv zeta in H. destruct (manh_accum (negb h) _ t) as [[l0 last0] h0] eqn:E.
+    injection H as <- <- <-. cbn [fold_left alt_step]. rewrite (IH _ _ _ _ _ _ E).
+    cbn [rev]. rewrite <- app_assoc. reflexivity.
+Qed.
+Lemma manh_length : forall ds h p l last h', manh_accum h p ds = (l, last, h') -> length l = length ds.
+Proof.
+  induction ds as [|d t IH]; intros h p l last h' H; cbn [manh_accum] in H.
+  - injection H as <- <- <-. reflexivity.
+  - cbv zeta in H. destruct (manh_accum (negb h) _ t) as [[l0 last0] h0] eqn:E. injection H as <- <- <-.
+    cbn. f_equal. eapply IH. exact E.
+Qed.
+
+Definition delta_step (st : list pt * pt) (d : pt) : list pt * pt :=
+  let '(acc, ref) := st in (padd d ref :: acc, padd d ref).
+Lemma delta_body_ok (srd : strm -> pt * strm) (rd : list N -> option (pt * list N)) :
+  (forall bs p r, rd bs = Some (p, r) -> srd (mkS bs None) = (p, mkS r None)) ->
+  forall a bs d r, rd bs = Some (d, r) -> plist_delta_body srd a (mkS bs None) = (delta_step a d, mkS r None).
+Proof. intros Hs a bs d r H. unfold plist_delta_body, delta_step. destruct a as [acc ref]. rewrite (Hs _ _ _ H). reflexivity. Qed.
+Lemma delta_fold : forall ds acc p,
+  fst (fold_left delta_step ds (acc, p)) = rev (prefix_sums_pt p ds) ++ acc.
+Proof.
+  induction ds as [|d t IH]; intros acc p; [reflexivity|].
+  cbn [fold_left delta_step prefix_sums_pt]. rewrite IH. rewrite (padd_comm d p).
+  cbn [rev]. rewrite <- app_assoc. reflexivity.
+Qed.
+Lemma delta_fold' ds st : fst (fold_left delta_step ds st) = rev (prefix_sums_pt (snd st) ds) ++ fst st.
+Proof. destruct st. apply delta_fold. Qed.
+Lemma prefix_sums_pt_length : forall ds p, length (prefix_sums_pt p ds) = length ds.
+Proof. induction ds as [|d t IH]; intros p; [reflexivity|]. cbn. f_equal. apply IH. Qed.
+
+Definition rel_step (st : list pt * pt * pt) (d : pt) : list pt * pt * pt :=
+  let '(acc, delta, ref) := st in
+  let delta1 := padd delta d in
+  let cur := padd delta1 ref in
+  (cur :: acc, delta1, cur).
+Lemma rel_body_ok a bs d r : rd_g bs = Some (d, r) -> plist_rel_body a (mkS bs None) = (rel_step a d, mkS r None).
+Proof. intros H. unfold plist_rel_body, rel_step. destruct a as [[acc dl] ref]. rewrite (s_gdelta_ok _ _ _ H). reflexivity. Qed.
+Lemma rel_fold : forall gs acc dl p,
+  fst (fst (fold_left rel_step gs (acc, dl, p))) = rev (ddelta_accum p dl gs) ++ acc.
+Proof.
+  induction gs as [|g t IH]; intros acc dl p; [reflexivity|].
+  cbn [fold_left rel_step ddelta_accum]. rewrite IH. rewrite (padd_comm (padd dl g) p).
+  cbn [rev]. rewrite <- app_assoc. reflexivity.
+Qed.
+Lemma rel_fold' gs st :
+  fst (fst (fold_left rel_step gs st)) = rev (ddelta_accum (snd st) (snd (fst st)) gs) ++ fst (fst st).
+Proof. destruct st as [[a b] c]. apply rel_fold. Qed.
+Lemma ddelta_length : forall gs p dl, length (ddelta_accum p dl gs) = length gs.
+Proof. induction gs as [|g t IH]; intros p dl; [reflexivity|]. cbn. f_equal. apply IH. Qed.
+
+Lemma lim31_alloc n have : n < lim31 -> have <= 2 -> (have + n) * 16 < 68719476736.
+Proof. unfold lim31. intros. nia. Qed.
+
+Lemma s_plist_ok closed bs pts r :
+  cov_plist closed bs = Some (pts, r) -> s_plist closed (mkS bs None) = ROk pts (mkS r None).
+Proof.
+  unfold cov_plist. destruct (small1 bs) eqn:Es; [|discriminate].
+  apply small1_cons in Es. destruct Es as (ty & t & -> & Hty).
+  destruct (rd_plist closed (ty :: t)) as [[pts0 rest]|] eqn:E; cbn [obnd]; [|discriminate].
+  destruct (N.of_nat (length pts0) <? lim31) eqn:El; [|discriminate]. intros [= <- <-].
+  apply N.ltb_lt in El.
+  unfold rd_plist in E. rewrite rd_uint_small1 in E by exact Hty. cbn [obnd] in E.
+  destruct (rd_uint t) as [[n bs2]|] eqn:En; cbn [obnd] in E; [|discriminate].
+  unfold s_plist, rd1. cbn [s_bs s_err]. rewrite (s_uint_ok _ _ _ En). cbn [s_err].
+  assert (Halt : forall (f0 : bool),
+    match (let? '(ds, bs) := rd_count rd_int n bs2 in
+           let '(l, last, h) := manh_accum f0 (0, 0)%Z ds in
+           Some (if closed then l ++ [if h then (0%Z, snd last) else (fst last, 0%Z)] else l, bs)) with
+    | Some (pts, r) => N.of_nat (length pts) < lim31 ->
+        (do '(acc, horizontal, last) <- s_alloc_loop 16 2 plist_alt_body 1 n ([], f0, (0, 0)%Z);
+         rret (if closed then rev ((if horizontal then (0%Z, snd last) else (fst last, 0%Z)) :: acc) else rev acc))
+          (mkS bs2 None) = ROk pts (mkS r None)
+    | None => True
+    end).
+  { intros f0. destruct (rd_count rd_int n bs2) as [[ds bs3]|] eqn:Ec; cbn [obnd]; [|exact I].
+    destruct (manh_accum f0 (0, 0)%Z ds) as [[l last] h] eqn:Em. intros El2.
+    pose proof (rd_count_length _ _ _ _ _ Ec) as Hn. pose proof (manh_length _ _ _ _ _ _ Em) as Hl.
+    unfold rbind.
+    rewrite (s_alloc_loop_ok rd_int plist_alt_body alt_step alt_body_ok 16 2 1 n bs2 ds bs3 _ Ec).
+    2:{ apply lim31_alloc; [|lia]. destruct closed; rewrite ?app_length in El2; cbn in El2; lia. }
+    rewrite (alt_fold _ _ _ _ _ _ _ Em). rewrite app_nil_r. unfold rret.
+    destruct closed; [|rewrite rev_involutive; reflexivity].
+    cbn [rev]. rewrite rev_involutive. reflexivity. }
+  assert (Hdelta : forall rd srd pf, (forall bs p r, rd bs = Some (p, r) -> srd (mkS bs None) = (p, mkS r None)) ->
+    match (let? '(ds, bs) := rd_count rd n bs2 in Some (prefix_sums_pt (0, 0)%Z ds, bs)) with
+    | Some (pts, r) => N.of_nat (length pts) < lim31 ->
+        (do '(acc, _) <- s_alloc_loop 16 1 (plist_delta_body srd) pf n ([], (0, 0)%Z); rret (rev acc))
+          (mkS bs2 None) = ROk pts (mkS r None)
+    | None => True
+    end).
+  { intros rd srd pf Hrd. destruct (rd_count rd n bs2) as [[ds bs3]|] eqn:Ec; cbn [obnd]; [|exact I].
+    intros El2. pose proof (rd_count_length _ _ _ _ _ Ec) as Hn.
+    rewrite prefix_sums_pt_length in El2. unfold rbind.
+    rewrite (s_alloc_loop_ok rd (plist_delta_body srd) delta_step (delta_body_ok _ _ Hrd)
+               16 1 pf n bs2 ds bs3 _ Ec) by (apply lim31_alloc; lia).
+    match goal with |- context [fold_left delta_step ds ?a] =>
+      pose proof (delta_fold' ds a) as Hf; destruct (fold_left delta_step ds a) as [acc lastp] end.
+    cbn [fst snd] in Hf. rewrite app_nil_r in Hf. subst acc. unfold rret. rewrite rev_involutive. reflexivity. }
+  destruct ty as [|p]; [|repeat (destruct p as [p|p|]; try discriminate)].
+  all: try (specialize (Halt true); cbv beta iota zeta in E; change (0 =? 0) with true in E;
+            rewrite E in Halt; exact (Halt El)).
+  all: try (specialize (Halt false); cbv beta iota zeta in E; change (1 =? 0) with false in E;
+            rewrite E in Halt; exact (Halt El)).
+  all: try (pose proof (Hdelta rd_2d s_2delta 1 s_2delta_ok) as Hd; rewrite E in Hd; exact (Hd El)).
+  all: try (pose proof (Hdelta rd_3d s_3delta 1 s_3delta_ok) as Hd; rewrite E in Hd; exact (Hd El)).
+  all: try (pose proof (Hdelta rd_g s_gdelta 0 s_gdelta_ok) as Hd; rewrite E in Hd; exact (Hd El)).
+  (* 5 *)
+  destruct (rd_count rd_g n bs2) as [[ds bs3]|] eqn:Ec; cbn [obnd] in E; [|discriminate].
+  injection E as <- <-. pose proof (rd_count_length _ _ _ _ _ Ec) as Hn.
+  rewrite ddelta_length in El. unfold rbind.
+  rewrite (s_alloc_loop_ok rd_g plist_rel_body rel_step rel_body_ok 16 1 0 n bs2 ds bs3 _ Ec)
+    by (apply lim31_alloc; lia).
+  match goal with |- context [fold_left rel_step ds ?a] =>
+    pose proof (rel_fold' ds a) as Hf; destruct (fold_left rel_step ds a) as [[acc dl] lastp] end.
+  cbn [fst snd] in Hf. rewrite app_nil_r in Hf. subst acc. unfold rret. rewrite rev_involutive. reflexivity.
+Qed.
+
+(* ================================================================== repetitions *)
+Definition orep_rel (mr : option srep) (cur : rrep) : Prop :=
+  match mr with Some r => cur = view_rep r | None => True end.
+
+Definition coord_step (g : N) (st : list N * N) (d : N) : list N * N :=
+  let '(acc, x) := st in (x + g * d :: acc, x + g * d).
+Lemma coord_body_ok g a bs d r : rd_uint bs = Some (d, r) -> rep_coord_body g a (mkS bs None) = (coord_step g a d, mkS r None).
+Proof. intros H. unfold rep_coord_body, coord_step. destruct a as [acc x]. rewrite (s_uint_ok _ _ _ H). reflexivity. Qed.
+Lemma coord_fold g : forall l acc a,
+  fst (fold_left (coord_step g) l (acc, g * a)) = rev (map (fun x => g * x) (prefix_sums_N a l)) ++ acc.
+Proof.
+  induction l as [|d t IH]; intros acc a; [reflexivity|].
+  cbn [fold_left coord_step prefix_sums_N map]. rewrite <- N.mul_add_distr_l. rewrite IH.
+  cbn [rev]. rewrite <- app_assoc. reflexivity.
+Qed.
+Lemma coord_fold' g l st : snd st = 0 ->
+  fst (fold_left (coord_step g) l st) = rev (map (fun x => g * x) (prefix_sums_N 0 l)) ++ fst st.
+Proof. destruct st as [acc x]. cbn [snd fst]. intros ->. replace 0 with (g * 0) at 1 by lia. apply coord_fold. Qed.
+
+Definition off_step (g : N) (st : list pt * pt) (d : pt) : list pt * pt :=
+  let '(acc, v) := st in
+  let v1 := ((fst v + Z.of_N g * fst d)%Z, (snd v + Z.of_N g * snd d)%Z) in (v1 :: acc, v1).
+Lemma off_body_ok g a bs d r : rd_g bs = Some (d, r) -> rep_off_body g a (mkS bs None) = (off_step g a d, mkS r None).
+Proof. intros H. unfold rep_off_body, off_step. destruct a as [acc x]. rewrite (s_gdelta_ok _ _ _ H). reflexivity. Qed.
+Definition gscale (g : N) (p : pt) : pt := ((Z.of_N g * fst p)%Z, (Z.of_N g * snd p)%Z).
+Lemma off_fold g : forall l acc a,
+  fst (fold_left (off_step g) l (acc, gscale g a)) = rev (map (gscale g) (prefix_sums_pt a l)) ++ acc.
+Proof.
+  induction l as [|d t IH]; intros acc a; [reflexivity|].
+  cbn [fold_left off_step prefix_sums_pt map].
+  replace ((fst (gscale g a) + Z.of_N g * fst d)%Z, (snd (gscale g a) + Z.of_N g * snd d)%Z) with (gscale g (padd a d)).
+  2:{ unfold gscale, padd. cbn [fst snd]. f_equal; lia. }
+  rewrite IH. cbn [rev]. rewrite <- app_assoc. reflexivity.
+Qed.
+Lemma off_fold' g l st : snd st = (0, 0)%Z ->
+  fst (fold_left (off_step g) l st) = rev (map (gscale g) (prefix_sums_pt (0, 0)%Z l)) ++ fst st.
+Proof.
+  destruct st as [acc x]. cbn [snd fst]. intros ->.
+  replace (0, 0)%Z with (gscale g (0, 0)%Z) at 1 by (unfold gscale; cbn [fst snd]; f_equal; lia). apply off_fold.
+Qed.
+
+Lemma u64_small n : n < two64 -> u64 n = n.
+Proof. intros H. unfold u64. apply N.mod_small. exact H. Qed.
+
+Lemma rlac_inv {A} (rd : list N -> option (A * list N)) wg bs g l rest :
+  rd_list_after_count rd wg bs = Some (g, l, rest) ->
+  exists c bs1 bs2, rd_uint bs = Some (c, bs1) /\
+    (if wg then exists gv, rd_uint bs1 = Some (gv, bs2) /\ g = Some gv else bs2 = bs1 /\ g = None) /\
+    rd_count rd (c + 1) bs2 = Some (l, rest).
+Proof.
+  unfold rd_list_after_count. destruct (rd_uint bs) as [[c bs1]|] eqn:E; cbn [obnd]; [|discriminate].
+  destruct wg.
+  - destruct (rd_uint bs1) as [[gv bs2]|] eqn:E2; cbn [obnd]; [|discriminate].
+    destruct (rd_count rd (c + 1) bs2) as [[l0 r0]|] eqn:E3; cbn [obnd]; [|discriminate].
+    intros [= <- <- <-]. exists c, bs1, bs2. repeat split; eauto.
+  - cbn [obnd]. destruct (rd_count rd (c + 1) bs1) as [[l0 r0]|] eqn:E3; cbn [obnd]; [|discriminate].
+    intros [= <- <- <-]. exists c, bs1, bs1. repeat split; eauto.
+Qed.
+
+(* the two list forms of oasis_read_repetition *)
+Lemma rep_coords_ok (k : list N -> rrep) (wg : bool) bs g l rest :
+  rd_list_after_count rd_uint wg bs = Some (g, l, rest) -> N.of_nat (length l) < lim31 ->
+  (let (c, s2) := s_uint (mkS bs None) in
+   let count := u64 (1 + c) in
+   let (gv, s3) := (if wg then s_uint s2 else (1, s2)) in
+   (do '(acc, _) <- s_alloc_loop 8 0 (rep_coord_body gv) 1 count ([], 0); rret (k (rev acc))) s3)
+  = ROk (k (map (fun x => grid_of g * x) (prefix_sums_N 0 l))) (mkS rest None).
+Proof.
+  intros H Hl. apply rlac_inv in H. destruct H as (c & bs1 & bs2 & Hc & Hg & Hcount).
+  pose proof (rd_count_length _ _ _ _ _ Hcount) as Hn. unfold lim31 in Hl.
+  rewrite (s_uint_ok _ _ _ Hc).
+  replace (u64 (1 + c)) with (c + 1) by (rewrite u64_small; unfold two64; lia).
+  assert (Hgo : (if wg then s_uint (mkS bs1 None) else (1, mkS bs1 None)) = (grid_of g, mkS bs2 None)).
+  { destruct wg.
+    - destruct Hg as (gv & Hgv & ->). rewrite (s_uint_ok _ _ _ Hgv). reflexivity.
+    - destruct Hg as [-> ->]. reflexivity. }
+  rewrite Hgo. unfold rbind.
+  rewrite (s_alloc_loop_ok rd_uint (rep_coord_body (grid_of g)) (coord_step (grid_of g)) (coord_body_ok _)
+             8 0 1 (c + 1) bs2 l rest _ Hcount) by lia.
+  match goal with |- context [fold_left ?f l ?a] =>
+    pose proof (coord_fold' (grid_of g) l a eq_refl) as Hf; destruct (fold_left f l a) as [acc lastp] end.
+  cbn [fst] in Hf. subst acc. unfold rret. rewrite app_nil_r, rev_involutive. reflexivity.
+Qed.
+
+Lemma rep_offs_ok (wg : bool) bs g l rest :
+  rd_list_after_count rd_g wg bs = Some (g, l, rest) -> N.of_nat (length l) < lim31 ->
+  (let (c, s2) := s_uint (mkS bs None) in
+   let count := u64 (1 + c) in
+   let (gv, s3) := (if wg then s_uint s2 else (1, s2)) in
+   (do '(acc, _) <- s_alloc_loop 16 0 (rep_off_body gv) 0 count ([], (0, 0)%Z); rret (RR_explicit (rev acc))) s3)
+  = ROk (RR_explicit (map (gscale (grid_of g)) (prefix_sums_pt (0, 0)%Z l))) (mkS rest None).
+Proof.
+  intros H Hl. apply rlac_inv in H. destruct H as (c & bs1 & bs2 & Hc & Hg & Hcount).
+  pose proof (rd_count_length _ _ _ _ _ Hcount) as Hn. unfold lim31 in Hl.
+  rewrite (s_uint_ok _ _ _ Hc).
+  replace (u64 (1 + c)) with (c + 1) by (rewrite u64_small; unfold two64; lia).
+  assert (Hgo : (if wg then s_uint (mkS bs1 None) else (1, mkS bs1 None)) = (grid_of g, mkS bs2 None)).
+  { destruct wg.
+    - destruct Hg as (gv & Hgv & ->). rewrite (s_uint_ok _ _ _ Hgv). reflexivity.
+    - destruct Hg as [-> ->]. reflexivity. }
+  rewrite Hgo. unfold rbind.
+  rewrite (s_alloc_loop_ok rd_g (rep_off_body (grid_of g)) (off_step (grid_of g)) (off_body_ok _)
+             16 0 0 (c + 1) bs2 l rest _ Hcount) by lia.
+  match goal with |- context [fold_left ?f l ?a] =>
+    pose proof (off_fold' (grid_of g) l a eq_refl) as Hf; destruct (fold_left f l a) as [acc lastp] end.
+  cbn [fst] in Hf. subst acc. unfold rret. rewrite app_nil_r, rev_involutive. reflexivity.
+Qed.
+
+Lemma lim31_u64 n : n < lim31 -> u64 (2 + n) = n + 2.
+Proof. unfold lim31. intros H. rewrite u64_small by (unfold two64; lia). lia. Qed.
+
+Lemma s_rep_ok mr cur bs r rest :
+  cov_rep mr bs = Some (r, rest) -> orep_rel mr cur -> s_rep cur (mkS bs None) = ROk (view_rep r) (mkS rest None).
+Proof.
+  unfold cov_rep. destruct (small1 bs) eqn:Es; [|discriminate].
+  apply small1_cons in Es. destruct Es as (ty & t & -> & Hty).
+  destruct (rd_rep mr (ty :: t)) as [[r0 rest0]|] eqn:E; cbn [obnd]; [|discriminate].
+  intros H Hrel.
+  assert (Hs : (ty = 0 \/ rep_small r0 = true) /\ r0 = r /\ rest0 = rest).
+  { destruct ty as [|p]; [destruct (true); injection H as <- <-; auto|].
+    destruct (rep_small r0); [|discriminate]. injection H as <- <-. auto. }
+  clear H. destruct Hs as (Hs & <- & <-).
+  unfold rd_rep in E. rewrite rd_uint_small1 in E by exact Hty. cbn [obnd] in E.
+  unfold s_rep, rd1. cbn [s_bs s_err].
+  destruct ty as [|p]; [|repeat (destruct p as [p|p|]; try discriminate)]; first
+    [ (* 0 *) solve [destruct mr as [r1|]; [|discriminate]; injection E as <- <-; cbn in Hrel; subst cur; reflexivity]
+    | (* 4 5 6 7 *)
+      solve [match type of E with context [rd_list_after_count rd_uint ?wg t] =>
+        destruct (rd_list_after_count rd_uint wg t) as [[[g l] bs3]|] eqn:El; cbn [obnd] in E; [|discriminate];
+        injection E as <- <-; destruct Hs as [Hs|Hs]; [discriminate|]; cbn [rep_small] in Hs; apply N.ltb_lt in Hs;
+        first [exact (rep_coords_ok (fun l => RR_ex l) wg t g l bs3 El Hs)
+              |exact (rep_coords_ok (fun l => RR_ey l) wg t g l bs3 El Hs)] end]
+    | (* 10 11 *)
+      solve [match type of E with context [rd_list_after_count rd_g ?wg t] =>
+        destruct (rd_list_after_count rd_g wg t) as [[[g l] bs3]|] eqn:El; cbn [obnd] in E; [|discriminate];
+        injection E as <- <-; destruct Hs as [Hs|Hs]; [discriminate|]; cbn [rep_small] in Hs; apply N.ltb_lt in Hs;
+        exact (rep_offs_ok wg t g l bs3 El Hs) end]
+    | (* 1 *)
+      solve [destruct (rd_uint t) as [[nx b1]|] eqn:E1; cbn [obnd] in E; [|discriminate];
+        destruct (rd_uint b1) as [[ny b2]|] eqn:E2; cbn [obnd] in E; [|discriminate];
+        destruct (rd_uint b2) as [[sx b3]|] eqn:E3; cbn [obnd] in E; [|discriminate];
+        destruct (rd_uint b3) as [[sy b4]|] eqn:E4; cbn [obnd] in E; [|discriminate]; injection E as <- <-;
+        destruct Hs as [Hs|Hs]; [discriminate|]; cbn [rep_small] in Hs; apply andb_prop in Hs; destruct Hs as [H1 H2];
+        apply N.ltb_lt in H1, H2;
+        rewrite (s_uint_ok _ _ _ E1), (s_uint_ok _ _ _ E2), (s_uint_ok _ _ _ E3), (s_uint_ok _ _ _ E4);
+        cbn [view_rep]; rewrite !lim31_u64 by assumption; reflexivity]
+    | (* 8 *)
+      solve [destruct (rd_uint t) as [[n b1]|] eqn:E1; cbn [obnd] in E; [|discriminate];
+        destruct (rd_uint b1) as [[m b2]|] eqn:E2; cbn [obnd] in E; [|discriminate];
+        destruct (rd_g b2) as [[v1 b3]|] eqn:E3; cbn [obnd] in E; [|discriminate];
+        destruct (rd_g b3) as [[v2 b4]|] eqn:E4; cbn [obnd] in E; [|discriminate]; injection E as <- <-;
+        destruct Hs as [Hs|Hs]; [discriminate|]; cbn [rep_small] in Hs; apply andb_prop in Hs; destruct Hs as [H1 H2];
+        apply N.ltb_lt in H1, H2;
+        rewrite (s_uint_ok _ _ _ E1), (s_uint_ok _ _ _ E2), (s_gdelta_ok _ _ _ E3), (s_gdelta_ok _ _ _ E4);
+        cbn [view_rep]; rewrite !lim31_u64 by assumption; reflexivity]
+    | (* 2 3 *)
+      solve [destruct (rd_uint t) as [[nx b1]|] eqn:E1; cbn [obnd] in E; [|discriminate];
+        destruct (rd_uint b1) as [[sx b2]|] eqn:E2; cbn [obnd] in E; [|discriminate]; injection E as <- <-;
+        destruct Hs as [Hs|Hs]; [discriminate|]; cbn [rep_small] in Hs; apply N.ltb_lt in Hs;
+        rewrite (s_uint_ok _ _ _ E1), (s_uint_ok _ _ _ E2); cbn [view_rep]; rewrite lim31_u64 by exact Hs; reflexivity]
+    | (* 9 *)
+      solve [destruct (rd_uint t) as [[n b1]|] eqn:E1; cbn [obnd] in E; [|discriminate];
+        destruct (rd_g b1) as [[v b2]|] eqn:E2; cbn [obnd] in E; [|discriminate]; injection E as <- <-;
+        destruct Hs as [Hs|Hs]; [discriminate|]; cbn [rep_small] in Hs; apply N.ltb_lt in Hs;
+        rewrite (s_uint_ok _ _ _ E1), (s_gdelta_ok _ _ _ E2); cbn [view_rep]; rewrite lim31_u64 by exact Hs; reflexivity] ].
 Qed.
